@@ -1,8 +1,16 @@
 use std::cell::RefCell;
 use std::collections::HashMap;
+#[cfg(not(feature = "verif"))]
 use std::net;
+#[cfg(feature = "verif")]
+use crate::verif::net;
+#[cfg(feature = "verif")]
+use crate::verif::rand;
 use std::rc::Rc;
+#[cfg(not(feature = "verif"))]
 use std::time;
+#[cfg(feature = "verif")]
+use crate::verif::time;
 
 use crate::EndpointConfig;
 use crate::frame::serial::Serialize;
@@ -595,6 +603,8 @@ impl Server {
         let mut frame_data_buf = [0; MAX_FRAME_SIZE];
 
         while let Ok((frame_size, address)) = self.socket.recv_from(&mut frame_data_buf) {
+            #[cfg(feature = "verif")]
+            crate::verif::tick();
             if let Some(frame) = frame::Frame::read(&frame_data_buf[..frame_size]) {
                 self.handle_frame(address, frame, now_ms);
             }
@@ -666,6 +676,8 @@ impl Server {
         now_ms: u64
     ) {
         while let Some(event) = self.client_events.peek() {
+            #[cfg(feature = "verif")]
+            crate::verif::tick();
             if event.time > now_ms {
                 break;
             }
@@ -735,6 +747,12 @@ impl Server {
                 _ => (),
             }
         }
+    }
+
+    #[cfg(feature = "verif")]
+    #[doc(hidden)]
+    pub fn verif_counts(&self) -> (usize, usize) {
+        (self.clients.len(), self.active_clients.iter().filter(|c| c.borrow().is_active()).count())
     }
 
     fn flush_active_clients(&mut self) {
